@@ -322,6 +322,10 @@ func (node *Node) Run(ctx context.Context) error {
 
 	var err error = nil
 	if err = node.load(ctx); err != nil {
+		// Nothing is running, so Stop must not wait for it.
+		node.lock.Lock()
+		node.stopped = true
+		node.lock.Unlock()
 		return err
 	}
 
